@@ -119,6 +119,25 @@ def run_engines(case):
         local = {}
         engines = []
         for e, ids in enumerate(case["eng"]):
+            if case.get("resampled"):
+                # the second entry point: ResampledFormulaBuilder.from_string over a channel registry
+                import frequenz.sdk.microgrid  # noqa: F401  (breaks an import cycle of the package)
+                from frequenz.client.microgrid import ComponentMetricId
+                from frequenz.sdk._internal._channels import ChannelRegistry
+                from frequenz.sdk.microgrid._data_sourcing import ComponentMetricRequest
+                from frequenz.sdk.timeseries.formula_engine._resampled_formula_builder import ResampledFormulaBuilder
+                reg = ChannelRegistry(name="reg")
+                reqs = Broadcast(name="requests")
+                _keep = reqs.new_receiver(limit=1000)  # noqa: F841
+                rb = ResampledFormulaBuilder("ns", f"f{e}", reg, reqs.new_sender(), ComponentMetricId.ACTIVE_POWER, Quantity)
+                engines.append(rb.from_string(" + ".join(f"#{g + 1}" for g in ids), nones_are_zeros=False))
+                for li, g in enumerate(ids):
+                    local[g] = li
+                    name = ComponentMetricRequest("ns", g + 1, ComponentMetricId.ACTIVE_POWER, None).get_channel_name()
+                    ch = reg.get_or_create(Sample[Quantity], name)
+                    snd[g] = ch.new_sender()
+                    rxs[g] = rb._metric_fetchers[f"#{g + 1}"].stream   # pylint: disable=protected-access
+                continue
             b = FormulaBuilder(f"f{e}", Quantity)
             for li, g in enumerate(ids):
                 local[g] = li
@@ -138,10 +157,12 @@ def run_engines(case):
                 k = sent[g]
                 if k < len(case["streams"][g]):
                     t = E + timedelta(microseconds=TICK_US * case["streams"][g][k])
+                    if case.get("tz_hours"):       # the same instant, stamped in another time zone
+                        t = t.astimezone(timezone(timedelta(hours=case["tz_hours"])))
                     v = None if [g, k] in nones else Quantity(float(value_of(local[g], k)))
                     await snd[g].send(Sample(t, v))
                     sent[g] += 1
-                    max_backlog = max(max_backlog, len(rxs[g]._q))  # pylint: disable=protected-access
+                    max_backlog = max(max_backlog, len(getattr(rxs[g], "_q", ())))  # pylint: disable=protected-access
             elif act[0] == "y":
                 for _ in range(act[1]):
                     await asyncio.sleep(0)
@@ -173,7 +194,7 @@ def run_engines(case):
                 out.append([tick, None if m.value is None else int(m.value.base_value)])
         res["out"] = out
         res["max_backlog"] = max_backlog
-        res["left"] = [len(r._q) + (len(case["streams"][g]) - sent[g]) for g, r in enumerate(rxs)]  # pylint: disable=protected-access
+        res["left"] = [len(getattr(r, "_q", ())) + (len(case["streams"][g]) - sent[g]) for g, r in enumerate(rxs)]  # pylint: disable=protected-access
         for t in asyncio.all_tasks():
             if t is not asyncio.current_task():
                 t.cancel()
@@ -370,6 +391,9 @@ def gen_engine_case(rng, kind):
         case["streams"] = streams
     if kind == "grid_realset":
         case["orders"] = None
+        if rng.random() < 0.3:
+            case["resampled"] = True                      # built by ResampledFormulaBuilder.from_string
+            case["tz_hours"] = rng.choice([0, 1, 2, -5, 9])
     else:
         perms = []
         for _ in range(rng.randint(1, 4)):
@@ -569,6 +593,11 @@ def judge_engine_outputs(case, ids, outs):
     for tick, v in outs:
         # a missing (None) input value of that timestamp makes the sample None, nothing else does
         miss = [g for g in ids if tick in case["streams"][g] and [g, case["streams"][g].index(tick)] in nones]
+        if not any(tick in case["streams"][g] for g in ids):
+            probs.append(f"timestamp: emitted tick {tick} is not the timestamp of any input sample "
+                         f"(inputs span {min((case['streams'][g][0] for g in ids if case['streams'][g]), default=None)}.."
+                         f"{max((case['streams'][g][-1] for g in ids if case['streams'][g]), default=None)})")
+            continue
         if v is None:
             if not miss:
                 probs.append(f"value: sample at tick {tick} is None although every input has a value for that timestamp")
